@@ -2661,7 +2661,10 @@ impl Block {
         //
         // TODO SYNC : Add the code to check whether this is the genesis block and skip validations
         //
-        assert!(self.id > 0);
+        if self.id == 0 {
+            error!("a block with id 0 cannot be part of a chain");
+            return false;
+        }
         if configs.is_spv_mode() {
             self.generate_consensus_values(blockchain, storage, configs)
                 .await;
